@@ -696,7 +696,7 @@ func TestC12(t *testing.T) {
 		for i := 0; i < k; i++ {
 			f := rapid.SampledFrom(smodel.Formats).Draw(rt, "format")
 			c := drawSchemaCase(rt, c12GenConfig(f), 2)
-			if f == smodel.OpenAPI && rapid.Bool().Draw(rt, "split") {
+			if f == smodel.OpenAPI && c.SplitPkg == "" && rapid.Bool().Draw(rt, "split") {
 				drawSplit(rt, &c)
 			}
 			cases = append(cases, c)
